@@ -103,6 +103,16 @@ structure Gpay (s : St) : Prop where
   payProc : ∀ g, s.proc = some g → ∀ x ∈ g.rest, x ∈ (runR C02.payStep {} s.out).seen
   payParked : ∀ r, s.parked = some r → ∀ x ∈ r.msgs, x ∈ (runR C02.payStep {} s.out).seen
 
+/-- fetch sizes follow the growth rule (`C14.grStep`): the monitor's size is the consumer's, or the consumer has
+    just grown its buffer for a too-small answer and has not asked again yet -/
+structure Ggr (cfg : Cfg) (s : St) : Prop where
+  grOk : (runR (C14.grStep cfg.bufMax) { buf := cfg.bufInit } s.out).bad = false
+  grSync : (runR (C14.grStep cfg.bufMax) { buf := cfg.bufInit } s.out).buf = s.bufferSize ∨
+    (0 < (runR (C14.grStep cfg.bufMax) { buf := cfg.bufInit } s.out).credit ∧
+      C14.growSpec (runR (C14.grStep cfg.bufMax) { buf := cfg.bufInit } s.out).buf cfg.bufMax = some s.bufferSize ∧
+      (∀ k c, s.requestD ≠ .pending k .fetch c) ∧ s.parked = none)
+  grParked : ∀ r, s.parked = some r → r.tail = .small → 0 < (runR (C14.grStep cfg.bufMax) { buf := cfg.bufInit } s.out).credit
+
 /-! ### Offsets handed to the processor increase (`C02.incStep`) -/
 
 /-- the fetch position is a sentinel, or an offset look-up is outstanding: the next position comes from the broker -/
